@@ -335,6 +335,13 @@ pub fn arb_gate_case() -> impl Strategy<Value = GateCase> {
 
 fn path_keys(b: &Block, out: &mut BTreeSet<SaitoPublicKey>) {
     for t in &b.transactions {
+        // a transaction that contributes nothing to the block's fees cannot win the payout lottery:
+        // neither its sender nor its routers are eligible through it
+        let in_sum: u128 = t.from.iter().filter(|s| s.slip_type != saito_core::core::consensus::slip::SlipType::Bound).map(|s| s.amount as u128).sum();
+        let out_sum: u128 = t.to.iter().filter(|s| s.slip_type != saito_core::core::consensus::slip::SlipType::Bound).map(|s| s.amount as u128).sum();
+        if in_sum <= out_sum && t.transaction_type != TransactionType::ATR {
+            continue;
+        }
         let inner;
         let t = if t.transaction_type == TransactionType::ATR {
             match Transaction::deserialize_from_net(&t.data) {
@@ -491,8 +498,21 @@ fn run_payout_case(case: &PayoutCase) -> (Vec<(String, String)>, usize, usize, u
 }
 
 pub fn arb_payout_case() -> impl Strategy<Value = PayoutCase> {
-    arb_forked_hist(30).prop_map(|mut hist| {
+    (arb_forked_hist(30), prop_oneof![2 => Just(false), 1 => Just(true)]).prop_map(|(mut hist, tiny)| {
         hist.ncfg.loading_completed = true;
+        if tiny {
+            // fees of 0..3 nolan: the payout lottery then lands on the boundary between two
+            // transactions (and on zero-fee transactions next to fee-paying ones) all the time
+            hist.issuance.extend([(4u8, 3_000_000u64), (5, 2_000_000)]);
+            for (i, b) in hist.blocks.iter_mut().enumerate() {
+                b.gt = true;
+                for t in b.txs.iter_mut() {
+                    t.fee %= 4;
+                }
+                // a zero-fee, path-less transaction of a key that neither pays fees nor routes
+                b.txs.push(TxSpec { payer: 4 + (i % 2) as u8, payee: 0, amount_sel: 100, fee: 0, routers: vec![], with_path: false, max_inputs: 1, nft: false });
+            }
+        }
         hist.issuance.extend([(0u8, 400_000_000u64), (1, 500_000_000), (2, 600_000_000), (3, 70_000_000)]);
         for b in hist.blocks.iter_mut() {
             for t in b.txs.iter_mut() {
